@@ -93,11 +93,11 @@ Qed.
 
 (* the fail-fast clause of the lock protocol, as a property of tryLockTractOnce *)
 Lemma long_writer_fails_fast : forall V busy id m,
-    fixF20 V = true -> get id busy = Some (-2) -> try_lock_once V busy id m = (busy, false, false).
+    fixF22 V = true -> get id busy = Some (-2) -> try_lock_once V busy id m = (busy, false, false).
 Proof. intros V busy id m HV G. unfold try_lock_once, long_marker. rewrite G, HV. destruct m; reflexivity. Qed.
 
 Lemma other_conflicts_wait : forall V busy id m st,
-    fixF20 V = true -> get id busy = Some st -> st <> -2 -> (m = MR -> st <= 0) ->
+    fixF22 V = true -> get id busy = Some st -> st <> -2 -> (m = MR -> st <= 0) ->
     try_lock_once V busy id m = (busy, false, true).
 Proof.
   intros V busy id m st HV G N C. unfold try_lock_once, long_marker. rewrite G, HV.
@@ -121,7 +121,7 @@ Proof.
     destruct m; try (inv A; fail). destruct (0 <? st) eqn:L; [|inv A]. inv A.
     rewrite get_set_same.
     assert (L2 : (st + 1 =? long_marker V) = false)
-      by (unfold long_marker, c18_LONG_WRITE; destruct (fixF20 V); lia).
+      by (unfold long_marker, c18_LONG_WRITE; destruct (fixF22 V); lia).
     destruct m'; try rewrite L in W; try discriminate W; rewrite L2; cbn [negb]; eexists; split; reflexivity.
   - destruct (get id busy) as [st|] eqn:G.
     + destruct m; try (inv A; fail). destruct (0 <? st); inv A. rewrite get_set_other by auto.
@@ -155,7 +155,7 @@ Definition all_done (s : sys) : bool := forallb (fun t => match t_pc t with PDon
 Definition sched_one (n : nat) : list (nat * Z) := repeat (0%nat, 0) n.
 
 Lemma f3_witness :
-  let s' := run_sched current_tree (g_one_tract, [new_thread op_setversion_stale]) (sched_one 12) in
+  let s' := run_sched unrepaired (g_one_tract, [new_thread op_setversion_stale]) (sched_one 12) in
   all_done s' = true /\ g_opens (fst s') - g_closes (fst s') = 1 /\ g_busy (fst s') = [].
 Proof. vm_compute. auto. Qed.
 
